@@ -56,6 +56,7 @@ def setup() -> None:
     from pymap.parsing.response.fetch import _AddressList, _ParamsList
     from pymap.parsing.commands import Commands
     from pymap.parsing.specials.fetchattr import FetchAttribute, FetchValue
+    from pymap.parsing.state import ParsingInterrupt
     from checks import _rfc
     _g.update(locals())
 
@@ -188,6 +189,41 @@ def _h_flags(n):
     return fn
 
 
+SECTION_PREFIXES = [b'BODY[HEADER.FIELDS (', b'BODY.PEEK[HEADER.FIELDS.NOT (', b'BODY[1.HEADER.FIELDS (']
+
+
+def fetch_echo(g, raw):
+    """the section specifier a client wrote is echoed in the FETCH response: returns the response bytes (or None when
+    the attribute does not parse on its own)"""
+    try:
+        attr, rest = g['FetchAttribute'].parse(raw, g['Params']())
+    except g['NotParseable']:
+        return None
+    if len(rest):
+        return None
+    fv = g['FetchValue'].of(attr.for_response, g['String'].build(b'x'))
+    return g['FetchResponse'](1, [fv])
+
+
+def _h_fetch_echo(pi, n):
+    def fn(eng):
+        from pysymex import fresh_bytes, SymBytes, Outcome
+        from pysymex.core import Unsupported
+        body = fresh_bytes(eng, 'h', n)
+        raw = SymBytes(list(SECTION_PREFIXES[pi]) + body.items + list(b')]'), 'memoryview')
+        wit = lambda m: {'attr': bytes(raw.eval(m)).hex()}  # noqa: E731
+        try:
+            resp = fetch_echo(_g, raw)
+        except _g['ParsingInterrupt']:
+            return Outcome(True, witness=wit, site='literal')
+        if resp is None:
+            return Outcome(True, witness=wit, site='rejected')
+        out = _items(resp)
+        err = _verdict(lambda: _g['_rfc'].check_line(out))
+        return Outcome(err is None, witness=wit, info=err, site='echo')
+    return fn
+
+
 def harnesses(tier):
     from pysymex.runner import Harness
     q = tier == 'quick'
@@ -207,6 +243,12 @@ def harnesses(tier):
         hs.append(Harness('bad_line[len=%d]' % n, _h_tagged(n), {'line': n}, replay='tagged'))
     for n in range(1, (4 if q else 5) + 1):
         hs.append(Harness('flag_echo[len=%d]' % n, _h_flags(n), {'flag': n}, replay='flags'))
+    for pi, pre in enumerate(SECTION_PREFIXES):
+        for n in range(1, (4 if tier == 'quick' else 6) + 1):
+            if pi and n > (3 if tier == 'quick' else 5):
+                continue
+            hs.append(Harness('fetch_section_echo[%s+%d]' % (pre.decode(), n), _h_fetch_echo(pi, n),
+                              {'prefix': pre.decode(), 'symbolic_bytes': n}, replay='fetchecho', task_budget=120))
     return hs
 
 
@@ -250,6 +292,17 @@ def replay(harness, w):
             if type(cmd).__name__ == 'InvalidCommand':
                 out = bytes(ResponseBad(cmd.tag, cmd.message))
                 _rfc.check_line(list(out), structured=False)
+        elif harness == 'fetchecho':
+            from pymap.parsing.state import ParsingInterrupt
+            g = {'FetchAttribute': FetchAttribute, 'FetchValue': FetchValue, 'FetchResponse': FetchResponse, 'String': String,
+                 'Params': Params, 'NotParseable': NotParseable}
+            try:
+                resp = fetch_echo(g, memoryview(bytes.fromhex(w['attr'])))
+            except ParsingInterrupt:
+                resp = None
+            if resp is not None:
+                out = bytes(resp)
+                _rfc.check_line(list(out))
         elif harness == 'flags':
             raw = bytes.fromhex(w['flag'])
             try:
